@@ -19,3 +19,36 @@ package runner
 //@   ensures  [command] result.Command == dir.Command && result.Arguments == dir.Arguments
 //@   ensures  [node]    result.NodePosition == report.DisplayPosition(fset, dir.Node.Pos())
 //@   ensures  [comment] result.DirectivePosition == report.DisplayPosition(fset, dir.Directive.Pos())
+
+//@ prop C04
+
+// frec(format, args): the record a formatted write contributes to a hash. Assumed injective in
+// its arguments for the formats used (listed in the trusted base).
+//@ ghost frec(format string, a []any) int
+// writing a formatted record to a cache.Hash appends exactly that record to its input
+//@ extern fmt.Fprintf(w io.Writer, format string, a []any) (n int, err error)
+//@   modifies cache.Hash.input
+//@   ensures istype(w, *cache.Hash) ==> len(astype(w, *cache.Hash).input) == len(old(astype(w, *cache.Hash).input)) + 1 && astype(w, *cache.Hash).input[len(old(astype(w, *cache.Hash).input))] == frec(format, a)
+//@   ensures istype(w, *cache.Hash) ==> (forall i int :: {astype(w, *cache.Hash).input[i]} 0 <= i && i < len(old(astype(w, *cache.Hash).input)) ==> astype(w, *cache.Hash).input[i] == old(astype(w, *cache.Hash).input)[i])
+//@ extern os.Getenv(key string) string
+//@   pure
+//@ extern fmt.Errorf(format string, a []any) error
+//@   ensures result != nil
+
+// Key completeness of the action hash (the direction of cache transparency that contracts can
+// decide): at the moment the action id is computed, the hash has absorbed, in this order,
+//   the salt, the merged configuration with only Checks cleared, the package hash, the analyzer
+//   names, the -go version, GODEBUG, and for every dependency its package path and the content
+//   hash of its facts (vetx) file.
+//@ func (*subrunner).do
+//@   modifies heap
+//@   may_panic
+//@   nosafe   all
+//@   abstract defer
+//@   requires r != nil && act != nil && istype(act, *packageAction)
+//@   loop 1   index nd
+//@   loop 1   invariant [hash]   h != nil && len(h.input) == 6 + nd
+//@   loop 1   invariant [prefix] h.input[0] == cache.saltRec() && h.input[1] == frec("cfg %#v\n", args(hashCfg)) && h.input[2] == frec("pkg %x\n", args(a.Package.Hash)) && h.input[3] == frec("analyzers %s\n", args(r.analyzerNames)) && h.input[4] == frec("go %s\n", args(r.GoVersion)) && h.input[5] == frec("env godebug %q\n", args(os.Getenv("GODEBUG")))
+//@   loop 1   invariant [cfg]    hashCfg.Checks == nil && hashCfg.Initialisms == a.Package.Config.Merge(r.cfg).Initialisms && hashCfg.DotImportWhitelist == a.Package.Config.Merge(r.cfg).DotImportWhitelist && hashCfg.HTTPStatusCodeWhitelist == a.Package.Config.Merge(r.cfg).HTTPStatusCodeWhitelist
+//@   loop 1   invariant [deps]   forall j int :: {a.deps[j]} 0 <= j && j < nd ==> istype(a.deps[j], *packageAction) && h.input[6 + j] == frec("vetout %q %x\n", args(astype(a.deps[j], *packageAction).Package.PkgPath, cache.contentHash(astype(a.deps[j], *packageAction).vetx)))
+//@   at call cache.(*Hash).Sum#1 assert [key] len(h.input) == 6 + len(a.deps) && hashCfg.Checks == nil
